@@ -286,7 +286,7 @@ class BondZero:
                 pv = flow * df
                 px += pv
 
-        px += df * self.par
+        px += df
         px = px / df_settle
 
         return px * self.par
